@@ -106,11 +106,34 @@ def main():
             violations.append({"what": "two views on one internal directory: the second view recomputed a blob the first one stored"})
         if dds.load("/cfg/shared") != "cfg-value":
             violations.append({"what": "two views: load through view2 failed"})
+        # the same configuration values given again after the working directory changed (two projects configured the
+        # same way from one process): a relative directory names a directory under the working directory of the moment
+        for cache in (None, True, 3):
+            evals += 1
+            shared = os.path.join(base, "shared_int_%s" % cache)
+            pa, pb = os.path.join(base, "proj_a_%s" % cache), os.path.join(base, "proj_b_%s" % cache)
+            os.makedirs(pa)
+            os.makedirs(pb)
+            os.chdir(pa)
+            dds.set_store("local", internal_dir=shared, data_dir="data", cache_objects=cache)
+            dds.keep("/cfg/a_only", fn)
+            os.chdir(pb)
+            dds.set_store("local", internal_dir=shared, data_dir="data", cache_objects=cache)
+            try:
+                dds.load("/cfg/a_only")
+                violations.append({"what": "same set_store arguments after chdir (cache_objects=%r): project b's view serves a path only project a has kept" % (cache,)})
+            except BaseException:
+                pass
+            dds.keep("/cfg/b_only", fn)
+            if not os.path.lexists(os.path.join(pb, "data", "cfg", "b_only")):
+                violations.append({"what": "same set_store arguments after chdir (cache_objects=%r): project b's keep was not committed under project b's data directory" % (cache,)})
+            if os.path.lexists(os.path.join(pa, "data", "cfg", "b_only")):
+                violations.append({"what": "same set_store arguments after chdir (cache_objects=%r): project b's keep landed in project a's data directory" % (cache,)})
     finally:
         os.chdir(cwd0)
         dds.set_store("memory")
         shutil.rmtree(base, ignore_errors=True)
-    print(json.dumps({"scope": "5 x 5 directory kinds (cache_objects cycling over 6 values) x {same cwd, after chdir, other process} + two data views", "evaluations": evals, "distinct_nontrivial": evals,
+    print(json.dumps({"scope": "5 x 5 directory kinds (cache_objects cycling over 6 values) x {same cwd, after chdir, other process} + two data views + the same relative configuration given again after chdir (3 cache settings)", "evaluations": evals, "distinct_nontrivial": evals,
                       "exhaustive": True, "rule": "one case per (internal_dir kind, data_dir kind)", "samples": samples, "violations": violations[:10], "known_hits": []}))
 
 
